@@ -8,7 +8,7 @@
 use std::rc::{Rc, Weak as RcWeak};
 use std::sync::{Arc, Weak};
 
-use arc_swap::{ArcSwapAny, RefCnt};
+use arc_swap::{ArcSwap, ArcSwapAny, ArcSwapOption, Guard, RefCnt};
 use serde_json::json;
 
 use crate::runner;
@@ -220,14 +220,14 @@ fn c0_counted<K: Kind>(c: (usize, usize)) -> usize {
     }
 }
 
-#[derive(Default, Clone)]
+#[derive(Default, Clone, PartialEq, Debug)]
 pub struct Zst;
-#[derive(Clone)]
+#[derive(Clone, PartialEq, Debug)]
 #[repr(align(64))]
 pub struct Aligned(pub u8);
 
 /// Run the grid for one pointee constructor. Returns (cells, checks).
-pub fn grid_for<T: Clone + 'static>(pname: &str, mk: &dyn Fn() -> T) -> (u64, u64) {
+pub fn grid_for<T: Clone + PartialEq + std::fmt::Debug + 'static>(pname: &str, mk: &dyn Fn() -> T) -> (u64, u64) {
     let mut cells = 0u64;
     let mut checks = 0u64;
     macro_rules! cell {
@@ -318,6 +318,72 @@ pub fn grid_for<T: Clone + 'static>(pname: &str, mk: &dyn Fn() -> T) -> (u64, u6
         }
         runner::distinct_str(&format!("Arc|{}|two-objects", pname));
     }
+    // ---- convenience constructors: each is specified as an equivalent of `new(..)`
+    {
+        #[allow(deprecated)]
+        type Fb = arc_swap::strategy::test_strategies::FillFastSlots;
+        let mut ck = |ok: bool, law: &str, detail: &str| {
+            checks += 1;
+            if !ok {
+                fail("Arc", pname, "constructor", law, detail.to_string());
+            }
+        };
+        let c = ArcSwap::<T>::from_pointee(mk());
+        let g = c.load();
+        ck(**g == mk(), "from_pointee-value", "ArcSwap::from_pointee does not hold the value it was given");
+        ck(Arc::strong_count(&g) == 1, "from_pointee-count", "ArcSwap::from_pointee: strong count of the stored value is not 1");
+        drop(g);
+        let v = c.into_inner();
+        ck(Arc::strong_count(&v) == 1 && *v == mk(), "from_pointee-into_inner", "into_inner after from_pointee");
+        let c = ArcSwapOption::<T>::from_pointee(mk());
+        let g = c.load();
+        ck(g.as_ref().map(|a| **a == mk() && Arc::strong_count(a) == 1) == Some(true), "option-from_pointee", "ArcSwapOption::from_pointee(value) must hold Some(value) with count 1");
+        drop(g);
+        let c2 = ArcSwapOption::<T>::from_pointee(None);
+        ck(c2.load().is_none(), "option-from_pointee-none", "ArcSwapOption::from_pointee(None) must be empty");
+        let c3 = ArcSwapOption::<T>::from_pointee(Some(mk()));
+        ck(c3.load().as_ref().map(|a| **a == mk()) == Some(true), "option-from_pointee-some", "ArcSwapOption::from_pointee(Some(value))");
+        let e1 = ArcSwapOption::<T>::empty();
+        let e2 = ArcSwapOption::<T>::const_empty();
+        let e3 = ArcSwapOption::<T>::default();
+        let e4 = ArcSwapAny::<Option<Arc<T>>, Fb>::empty();
+        let e5 = ArcSwapAny::<Option<Arc<T>>, Fb>::default();
+        ck(e1.load().is_none() && e2.load().is_none() && e3.load().is_none() && e4.load().is_none() && e5.load().is_none(), "empty", "empty() / const_empty() / default() must hold None");
+        ck(e1.load_full().is_none() && e4.load_full().is_none(), "empty-load_full", "load_full of an empty container");
+        // an empty container works like any other afterwards
+        let a = Arc::new(mk());
+        for (i, e) in [&e1, &e2, &e3].iter().enumerate() {
+            let prev = e.swap(Some(a.clone()));
+            ck(prev.is_none(), "empty-swap", "swap on an empty container must return None");
+            ck(Arc::strong_count(&a) == 2 + i, "empty-swap-count", "count after storing into an empty container");
+            let g = e.load();
+            ck(g.as_ref().map(|x| Arc::ptr_eq(x, &a)) == Some(true), "empty-then-load", "load after storing into an empty container");
+        }
+        let prev = e4.compare_and_swap(&None::<Arc<T>>, Some(a.clone()));
+        ck(prev.is_none() && e4.load().as_ref().map(|x| Arc::ptr_eq(x, &a)) == Some(true), "empty-cas", "compare_and_swap(None, v) on an empty container must store v");
+        let prev = e5.compare_and_swap(std::ptr::null::<T>(), Some(a.clone()));
+        ck(prev.is_none() && e5.load().as_ref().map(|x| Arc::ptr_eq(x, &a)) == Some(true), "empty-cas-null", "compare_and_swap(null, v) on an empty container must store v");
+        drop((e1, e2, e3, e4, e5));
+        ck(Arc::strong_count(&a) == 1, "empty-dropped-count", "count after dropping the containers");
+        // guards made from values
+        let g: Guard<Option<Arc<T>>> = Guard::default();
+        ck(g.is_none(), "guard-default", "Guard::default() of an Option kind must be None");
+        let g: Guard<Arc<T>> = Guard::from(a.clone());
+        ck(Arc::ptr_eq(&g, &a) && Arc::strong_count(&a) == 2, "guard-from", "Guard::from(value)");
+        let back = Guard::into_inner(g);
+        ck(Arc::ptr_eq(&back, &a) && Arc::strong_count(&a) == 2, "guard-from-into_inner", "Guard::into_inner(Guard::from(value))");
+        drop(back);
+        // formatting goes through a load and leaves the counts alone
+        let c = ArcSwap::from(a.clone());
+        let txt = format!("{:?}", c);
+        ck(txt == format!("ArcSwapAny({:?})", mk()), "debug", "Debug of a container");
+        ck(format!("{:?}", c.load()) == format!("{:?}", mk()), "debug-guard", "Debug of a guard");
+        ck(Arc::strong_count(&a) == 2, "debug-count", "count after formatting");
+        drop(c);
+        ck(Arc::strong_count(&a) == 1, "final-count", "count at the end of the constructor block");
+        cells += 1;
+        runner::distinct_str(&format!("Arc|{}|constructors", pname));
+    }
     (cells, checks)
 }
 
@@ -338,5 +404,18 @@ pub fn run_grid() -> (u64, u64) {
     add(grid_for::<Aligned>("align64", &|| Aligned(3)));
     add(grid_for::<String>("String", &|| "some heap data".to_string()));
     add(grid_for::<[u64; 33]>("[u64;33]", &|| [5u64; 33]));
+    {
+        // Display of a container and of a guard is the Display of the current value
+        let c = ArcSwap::from_pointee("first".to_string());
+        let mut ok = format!("{}", c) == "first" && format!("{}", c.load()) == "first";
+        c.store(Arc::new("second".to_string()));
+        ok &= format!("{}", c) == "second";
+        let o = ArcSwapOption::<String>::empty();
+        ok &= format!("{:?}", o) == "ArcSwapAny(None)";
+        if !ok {
+            fail("Arc", "String", "constructor", "display", "Display / Debug of a container does not show the current value".to_string());
+        }
+        add((1, 4));
+    }
     (cells, checks)
 }
